@@ -133,11 +133,15 @@ def impl(case):
         p_text = JSONPatch(json.dumps([P.op_to_dict(o) for o in case["ops"]]), unicode_escape=case["mode"])
         p_bld = _build_with_builder(case["ops"], case["mode"], _share([P.op_to_dict(o) for o in case["ops"]]))
         p_re = JSONPatch(p_doc.asdicts(), unicode_escape=case["mode"])
+        # the documented Iterable[Mapping] form given as one-shot iterables and as a tuple
+        p_iters = [JSONPatch(iter([P.op_to_dict(o) for o in case["ops"]]), unicode_escape=case["mode"]),
+                   JSONPatch((P.op_to_dict(o) for o in case["ops"]), unicode_escape=case["mode"]),
+                   JSONPatch(tuple(P.op_to_dict(o) for o in case["ops"]), unicode_escape=case["mode"])]
     except Exception as e:  # noqa: BLE001
         return {"build": ["err", exc_name(e)]}
     out["build"] = ["ok", [P.dict_to_op(d) for d in p_doc.asdicts()]]
     out["forms_same_dicts"] = (SX.canon(p_doc.asdicts()) == SX.canon(p_bld.asdicts()) == SX.canon(p_re.asdicts())
-                               == SX.canon(p_text.asdicts()))
+                               == SX.canon(p_text.asdicts())) and all(SX.canon(x.asdicts()) == SX.canon(p_doc.asdicts()) for x in p_iters)
     before = SX.canon(p_doc.asdicts())
 
     def app(p):
@@ -168,7 +172,17 @@ def impl(case):
         out["results_independent"] = not shared and not (_ids(r1, set()) & stored)
     else:
         out["results_independent"] = True
-    out["forms_same_effect"] = app(p_bld) == app(p_re) == app(p_text) == out["apply"]
+    out["forms_same_effect"] = app(p_bld) == app(p_re) == app(p_text) == out["apply"] and all(app(x) == out["apply"] for x in p_iters)
+    if case["mode"]:
+        import jsonpath.patch as _JP
+
+        def app_fn():
+            try:
+                return ["ok", SX.canon(_JP.apply(iter([P.op_to_dict(o) for o in case["ops"]]), deep(case["doc"])))]
+            except Exception as e:  # noqa: BLE001
+                return ["err", exc_name(e)]
+        if app_fn() != out["apply"]:
+            out["forms_same_effect"] = False
     # documents given as JSON TEXT: equal texts are equal documents, every application starts from a fresh one
     if isinstance(case["doc"], (dict, list)):
         jtxt = json.dumps(case["doc"])
